@@ -11,7 +11,7 @@ Definition sval_eqb (a b : sval) : bool :=
   end.
 Definition gval_eqb (a b : gval) : bool :=
   match a, b with
-  | GStr x, GStr y => String.eqb x y | GBool x, GBool y => Bool.eqb x y
+  | GStr t x, GStr t' y => kind_eqb t t' && String.eqb x y | GBool t x, GBool t' y => kind_eqb t t' && Bool.eqb x y
   | GNum k x, GNum k' y => kind_eqb k k' && (x =? y)
   | GFlt k x, GFlt k' y => kind_eqb k k' && same_float x y
   | GOth, GOth => true
